@@ -7,7 +7,7 @@
 //! function, nothing ordered after a failed one starts; C09 outcome lists.
 //! With VERIF_EXECUTOR=tokio every call is driven by a tokio current-thread runtime instead of futures' block_on (tokio's
 //! per-task cooperative budget makes its primitives return Pending spuriously once ~128 operations happened in one poll).
-//! usage: c_run [C01|C02|C03|C04|C05|C07|C09|C10|all]
+//! usage: c_run [C01|C02|C03|C04|C05|C07|C09|C10|C20|all]
 use fn_graph::daggy::petgraph::algo::has_path_connecting;
 use fn_graph::{FnGraph, FnGraphBuilder, FnId, StreamOpts, StreamOutcomeState};
 use fn_graph_replay::*;
@@ -223,6 +223,70 @@ fn run_case(which: &'static str, c: Case, seed: u64) -> Result<(), String> {
             check_trace(which, &cc, &g, &ids, &tr, reverse, true, &[], "stream_with")
         })??;
     }
+    // ---- entry-point sweep: a clean run through EVERY public fold / for_each entry point (the pass-through wrappers are under
+    // no contract): order, exactly-once and the outcome are judged per entry point; small graphs only
+    if !stream_only && c.n <= 8 {
+        for ep in 0..20usize {
+            let cc = Case { n: c.n, accs: c.accs.clone(), edges: c.edges.clone(), desc: c.desc.clone() };
+            let names = ["fold_async", "fold_async_with", "fold_async_mut", "fold_async_mut_with", "try_fold_async", "try_fold_async_with", "try_fold_async_mut", "try_fold_async_mut_with",
+                         "for_each_concurrent", "for_each_concurrent_mut", "for_each_concurrent_mut_with", "try_for_each_concurrent_with", "try_for_each_concurrent_mut_with",
+                         "try_for_each_concurrent_control", "try_for_each_concurrent_control_with", "try_for_each_concurrent_control_mut", "try_for_each_concurrent_control_mut_with",
+                         "try_for_each_concurrent_mut", "try_for_each_concurrent", "for_each_concurrent_with"];
+            let name = names[ep];
+            let with_opts = name.ends_with("_with");
+            let reverse = with_opts && (seed + ep as u64) % 2 == 1;
+            let label = format!("{name}(reverse={reverse}) on {}", c.desc);
+            guarded(which, label, move || {
+                use futures::FutureExt;
+                use std::ops::ControlFlow;
+                let (mut g, ids) = build(&cc);
+                let trace = Rc::new(RefCell::new(Vec::<Ev>::new()));
+                let opts = if reverse { StreamOpts::new().rev() } else { StreamOpts::new() };
+                let t1 = trace.clone();
+                let step = move |id: usize| { let t = t1.clone(); async move { t.borrow_mut().push(Ev::Start(id)); YieldN(1).await; t.borrow_mut().push(Ev::End(id)); } };
+                let lim = Some(2usize);
+                let outcome: fn_graph::StreamOutcome<()> = match ep {
+                    0 => block_on(g.fold_async((), |(), f| { let fu = step(f.id); async move { fu.await; }.boxed_local() })),
+                    1 => block_on(g.fold_async_with((), opts, |(), f| { let fu = step(f.id); async move { fu.await; }.boxed_local() })),
+                    2 => block_on(g.fold_async_mut((), |(), f| { let fu = step(f.id); async move { fu.await; }.boxed_local() })),
+                    3 => block_on(g.fold_async_mut_with((), opts, |(), f| { let fu = step(f.id); async move { fu.await; }.boxed_local() })),
+                    4 => block_on(g.try_fold_async((), |(), f| { let fu = step(f.id); async move { fu.await; Ok::<(), ()>(()) }.boxed_local() })).map_err(|_| "Err".to_string())?,
+                    5 => block_on(g.try_fold_async_with((), opts, |(), f| { let fu = step(f.id); async move { fu.await; Ok::<(), ()>(()) }.boxed_local() })).map_err(|_| "Err".to_string())?,
+                    6 => block_on(g.try_fold_async_mut((), |(), f| { let fu = step(f.id); async move { fu.await; Ok::<(), ()>(()) }.boxed_local() })).map_err(|_| "Err".to_string())?,
+                    7 => block_on(g.try_fold_async_mut_with((), opts, |(), f| { let fu = step(f.id); async move { fu.await; Ok::<(), ()>(()) }.boxed_local() })).map_err(|_| "Err".to_string())?,
+                    8 => block_on(g.for_each_concurrent(lim, |f: &Acc| step(f.id))),
+                    9 => block_on(g.for_each_concurrent_mut(lim, |f: &mut Acc| step(f.id))),
+                    10 => block_on(g.for_each_concurrent_mut_with(lim, opts, |f: &mut Acc| step(f.id))),
+                    11 => block_on(g.try_for_each_concurrent_with(lim, opts, |f: &Acc| { let fu = step(f.id); async move { fu.await; Ok::<(), ()>(()) } })).map_err(|_| "Err".to_string())?,
+                    12 => block_on(g.try_for_each_concurrent_mut_with(lim, opts, |f: &mut Acc| { let fu = step(f.id); async move { fu.await; Ok::<(), ()>(()) } })).map_err(|_| "Err".to_string())?,
+                    13 => match block_on(g.try_for_each_concurrent_control(lim, |f: &Acc| { let fu = step(f.id); async move { fu.await; ControlFlow::<(), ()>::Continue(()) } })) { ControlFlow::Continue(o) => o, ControlFlow::Break(_) => return Err(format!("C07: {name} returned Break in a clean run ({})", cc.desc)) },
+                    14 => match block_on(g.try_for_each_concurrent_control_with(lim, opts, |f: &Acc| { let fu = step(f.id); async move { fu.await; ControlFlow::<(), ()>::Continue(()) } })) { ControlFlow::Continue(o) => o, ControlFlow::Break(_) => return Err(format!("C07: {name} returned Break in a clean run ({})", cc.desc)) },
+                    15 => match block_on(g.try_for_each_concurrent_control_mut(lim, |f: &mut Acc| { let fu = step(f.id); async move { fu.await; ControlFlow::<(), ()>::Continue(()) } })) { ControlFlow::Continue(o) => o, ControlFlow::Break(_) => return Err(format!("C07: {name} returned Break in a clean run ({})", cc.desc)) },
+                    16 => match block_on(g.try_for_each_concurrent_control_mut_with(lim, opts, |f: &mut Acc| { let fu = step(f.id); async move { fu.await; ControlFlow::<(), ()>::Continue(()) } })) { ControlFlow::Continue(o) => o, ControlFlow::Break(_) => return Err(format!("C07: {name} returned Break in a clean run ({})", cc.desc)) },
+                    17 => block_on(g.try_for_each_concurrent_mut(lim, |f: &mut Acc| { let fu = step(f.id); async move { fu.await; Ok::<(), ()>(()) } })).map_err(|_| "Err".to_string())?,
+                    18 => block_on(g.try_for_each_concurrent(lim, |f: &Acc| { let fu = step(f.id); async move { fu.await; Ok::<(), ()>(()) } })).map_err(|_| "Err".to_string())?,
+                    _ => block_on(g.for_each_concurrent_with(lim, opts, |f: &Acc| step(f.id))),
+                };
+                let tr = trace.borrow().clone();
+                check_trace(which, &cc, &g, &ids, &tr, reverse, true, &[], name)?;
+                let fold_family = ep < 8;
+                if which == "C10" || which == "all" {
+                    let mut inflight = 0usize; let mut mx = 0usize;
+                    for e in &tr { match e { Ev::Start(_) => { inflight += 1; mx = mx.max(inflight); } Ev::End(_) => inflight -= 1 } }
+                    let cap = if fold_family { 1 } else { 2 };
+                    if mx > cap { return Err(format!("C10: {mx} user futures in flight in {name} (at most {cap} allowed) ({})", cc.desc)); }
+                }
+                if which == "C09" || which == "C03" || which == "all" {
+                    let started: Vec<usize> = tr.iter().filter_map(|e| if let Ev::Start(i) = e { Some(*i) } else { None }).collect();
+                    let proc_: Vec<usize> = outcome.fn_ids_processed.iter().map(|i| i.index()).collect();
+                    if proc_ != started || outcome.state != StreamOutcomeState::Finished || !outcome.fn_ids_not_processed.is_empty() {
+                        return Err(format!("C09: {name}: outcome {:?}/{:?}/{:?} vs started {started:?} in a clean run ({})", outcome.state, proc_, outcome.fn_ids_not_processed, cc.desc));
+                    }
+                }
+                Ok(())
+            })??;
+        }
+    }
     // ---- try_for_each_concurrent with a failing set
     if c.n > 0 && !stream_only {
         let cc = Case { n: c.n, accs: c.accs.clone(), edges: c.edges.clone(), desc: c.desc.clone() };
@@ -246,6 +310,42 @@ fn run_case(which: &'static str, c: Case, seed: u64) -> Result<(), String> {
                     Ok(_) => if !failed_started.is_empty() { return Err(format!("C07: Ok returned although {failed_started:?} failed ({})", cc.desc)); },
                     Err((_, mut errs)) => { errs.sort(); let mut want = failed_started.clone(); want.sort(); if errs != want { return Err(format!("C07: errors {errs:?} vs failed functions {want:?} ({})", cc.desc)); } }
                 }
+            }
+            Ok(())
+        })??;
+    }
+    // ---- C20: two try_for_each_concurrent runs on one graph joined in ONE task (they share the task's poll, its waker and -
+    // on a tokio runtime - its cooperative budget); each must report its own failures as if it were alone
+    if c.n > 0 && !stream_only && (which == "C20" || which == "all") {
+        let cc = Case { n: c.n, accs: c.accs.clone(), edges: c.edges.clone(), desc: c.desc.clone() };
+        let label = format!("two joined try_for_each_concurrent runs on {}", c.desc);
+        guarded(which, label, move || {
+            let (g, ids) = build(&cc);
+            let mut outs = vec![];
+            let mk = |salt: u64| {
+                let mut rng = Lcg(seed ^ salt);
+                let failing: Vec<usize> = (0..cc.n).filter(|_| rng.below(3) == 0).collect();
+                (Rc::new(RefCell::new(Vec::<Ev>::new())), failing)
+            };
+            let (ta, fa) = mk(0xa1);
+            let (tb, fb) = mk(0xb2);
+            let (fa2, fb2, ta2, tb2) = (fa.clone(), fb.clone(), ta.clone(), tb.clone());
+            let (ra, rb) = block_on(async {
+                let a = g.try_for_each_concurrent(None, |f: &Acc| { let (t, id, fail) = (ta2.clone(), f.id, fa2.contains(&f.id)); async move { t.borrow_mut().push(Ev::Start(id)); YieldN(1).await; t.borrow_mut().push(Ev::End(id)); if fail { Err(id) } else { Ok(()) } } });
+                let b = g.try_for_each_concurrent(Some(2), |f: &Acc| { let (t, id, fail) = (tb2.clone(), f.id, fb2.contains(&f.id)); async move { t.borrow_mut().push(Ev::Start(id)); YieldN(2).await; t.borrow_mut().push(Ev::End(id)); if fail { Err(id) } else { Ok(()) } } });
+                futures::join!(a, b)
+            });
+            outs.push((1, ta, fa, ra));
+            outs.push((2, tb, fb, rb));
+            for (k, t, failing, res) in outs {
+                let tr = t.borrow().clone();
+                let started: Vec<usize> = tr.iter().filter_map(|e| if let Ev::Start(i) = e { Some(*i) } else { None }).collect();
+                let mut want: Vec<usize> = failing.iter().cloned().filter(|i| started.contains(i)).collect();
+                want.sort();
+                check_trace("all", &cc, &g, &ids, &tr, false, false, &want, "try_for_each_concurrent").map_err(|e| format!("C20: run {k} of two joined runs violates {e}"))?;
+                let mut errs = match res { Ok(_) => vec![], Err((_, e)) => e };
+                errs.sort();
+                if errs != want { return Err(format!("C20: run {k} of two runs joined in one task reports errors {errs:?} but its failed functions are {want:?} ({})", cc.desc)); }
             }
             Ok(())
         })??;
@@ -300,7 +400,7 @@ fn run_case(which: &'static str, c: Case, seed: u64) -> Result<(), String> {
 }
 
 fn main() {
-    let which: &'static str = match std::env::args().nth(1).as_deref() { Some("C01") => "C01", Some("C02") => "C02", Some("C03") => "C03", Some("C04") => "C04", Some("C05") => "C05", Some("C07") => "C07", Some("C09") => "C09", Some("C10") => "C10", _ => "all" };
+    let which: &'static str = match std::env::args().nth(1).as_deref() { Some("C01") => "C01", Some("C02") => "C02", Some("C03") => "C03", Some("C04") => "C04", Some("C05") => "C05", Some("C07") => "C07", Some("C09") => "C09", Some("C10") => "C10", Some("C20") => "C20", _ => "all" };
     let seed = std::env::var("VERIF_SEED").ok().and_then(|s| s.parse().ok()).unwrap_or(1u64);
     let mut rng = Lcg(seed.wrapping_mul(2654435761) + 11);
     let mut cases = vec![];
